@@ -173,10 +173,19 @@ def check_case(cell, case, ctx):
         axes = [None] + list(range(len(shape))) + [-1]
         for ax in axes:
             for kd in (False, True):
-                for spelling in ("numpy.sum", "method"):
+                for spelling in ("numpy.sum", "method", "numpy.sum positional", "method positional"):
+                    if spelling.endswith("positional") and kd:
+                        continue
                     ctx.evaluation()
                     try:
-                        r = numpy.sum(arr, axis=ax, keepdims=kd) if spelling == "numpy.sum" else arr.sum(axis=ax, keepdims=kd)
+                        if spelling == "numpy.sum":
+                            r = numpy.sum(arr, axis=ax, keepdims=kd)
+                        elif spelling == "method":
+                            r = arr.sum(axis=ax, keepdims=kd)
+                        elif spelling == "numpy.sum positional":
+                            r = numpy.sum(arr, ax)
+                        else:
+                            r = arr.sum(ax)
                     except Exception as e:  # noqa: BLE001
                         fail("exception", f"{spelling}(shape {shape}, axis={ax}, keepdims={kd}) raised {type(e).__name__}: {e!s:.200}", "sum")
                         return
